@@ -386,13 +386,15 @@ def parseClients (ri : Reader Int) (ver : Version) :
           | .ok bit => parseClients ri ver fuel (j + 1) rest (acc ++ [c]) (recv ||| bit)
       else parseClients ri ver fuel (j + 1) rest (acc ++ [c]) recv
 
+/-- `if version.has_extra_info() { let _ = str!("extra_info"); }` -/
+def skipExtra (ver : Version) (bs : List UInt8) : Option (List UInt8) :=
+  if ver.hasExtraInfo then (match readStr bs with | some (_, bs) => some bs | none => none) else some bs
+
 /-- `parse_server_info` after the head: the extra-info string, the `received` bit of an extended
 info, the client loop. -/
 def parseBody (ri : Reader Int) (ver : Version) (info : ServerInfo) (packetNo offset : Nat) (bs : List UInt8) :
     Outcome (Option PartialInfo) :=
-  let afterExtra : Option (List UInt8) :=
-    if ver.hasExtraInfo then (match readStr bs with | some (_, bs) => some bs | none => none) else some bs
-  match afterExtra with
+  match skipExtra ver bs with
   | none => .ok none
   | some bs =>
     match (if ver = .v6Ex then shl1 "1 << packet_no" packetNo else .ok 0) with
